@@ -281,18 +281,98 @@ example :
 
 /-! ### what an accepted table looks like -/
 
-/-- The type of a (non-null) denoted value. -/
+/-- What is known of a denoted value of each type (null is a value of every type). -/
 def hasType : Ty → Val → Prop
   | _, .null => True
   | .integer, .int i => int64Min ≤ i ∧ i ≤ int64Max
   | .number, .num _ _ _ => True
   | .string, .str _ => True
   | .boolean, .bool _ => True
-  | .date, .date _ us => us < 86400 * 1000000
+  | .date, .date _ _ => True
   | .period, .period p => valid p = true
-  | .interval, .interval d1 s1 d2 s2 => d1 < d2 ∨ (d1 = d2 ∧ s1 ≤ s2)
+  | .interval, .interval _ _ _ _ => True
   | .duration, .dur _ => True
   | _, _ => False
+
+/-- A recognised cell denotes a value of its component's type. -/
+theorem denote_hasType (ty : Ty) (s : List Char) (v : Val) (h : denoteCell ty s = some v) : hasType ty v := by
+  cases ty <;> simp only [denoteCell] at h
+  · -- integer
+    simp only [denoteInteger] at h
+    repeat' (split at h)
+    all_goals first
+      | (cases h; done)
+      | (cases h; first | assumption | simp [hasType, int64Min, int64Max])
+  · -- number
+    simp only [denoteNumber] at h
+    repeat' (split at h)
+    all_goals first | (cases h; done) | (cases h; trivial)
+  · cases h; trivial
+  · -- boolean
+    simp only [denoteBoolean] at h
+    repeat' (split at h)
+    all_goals first | (cases h; done) | (cases h; trivial)
+  · -- date
+    simp only [denoteDate] at h
+    repeat' (split at h)
+    all_goals first | (cases h; done) | (cases h; trivial)
+  · -- period
+    simp only [denotePeriod] at h
+    split at h
+    · rename_i p hp; cases h; exact C21.parse_valid s p hp
+    · cases h
+  · -- interval
+    simp only [denoteInterval] at h
+    repeat' (split at h)
+    all_goals first | (cases h; done) | (cases h; trivial)
+  · -- duration
+    simp only [denoteDuration] at h
+    repeat' (split at h)
+    all_goals first | (cases h; done) | (cases h; trivial)
+
+/-- What an accepted table looks like: one normalised row per input row, every row aligned with the
+    structure, every value of its component's type, no null where one is forbidden, at most one row when there
+    is no identifier, and identifier keys without duplicates. -/
+theorem accept_wellformed (s : Struct) (t : Table) (n : NTable) (h : acceptTable s t = .ok n) :
+    n.length = t.rows.length ∧
+    (∀ r ∈ n, r.length = s.length) ∧
+    (∀ r ∈ t.rows, ∀ c ∈ s, hasType c.ty (cellGet c (rawCell t.cols c r)) ∧
+        (required c = true → cellGet c (rawCell t.cols c r) ≠ .null)) ∧
+    ((∀ c ∈ s, isId c = false) → n.length ≤ 1) ∧
+    (n.map (keyOf s)).Nodup := by
+  have hex : ∃ m, acceptTable s t = .ok m := ⟨n, h⟩
+  have hnv := (accept_iff_noViolation s t).mp hex
+  obtain ⟨_, _, _, hbad, hnull, hmany, hdup⟩ := hnv
+  have hm := acceptTable_rows s t n h
+  have hn := acceptTable_eq_map s t n h
+  have hlen := mapE_length _ _ _ hm
+  refine ⟨hlen, ?_, ?_, ?_, ?_⟩
+  · intro r hr
+    rw [hn] at hr
+    simp only [List.mem_map] at hr
+    obtain ⟨r0, _, rfl⟩ := hr
+    simp [normRowD]
+  · intro r hr c hc
+    have hne : cellVal c (rawCell t.cols c r) ≠ none := fun hnone => hbad ⟨r, hr, c, hc, hnone⟩
+    cases hcv : cellVal c (rawCell t.cols c r) with
+    | none => exact absurd hcv hne
+    | some v =>
+      have hget : cellGet c (rawCell t.cols c r) = v := by simp [cellGet, hcv]
+      rw [hget]
+      constructor
+      · unfold cellVal at hcv
+        split at hcv
+        · cases hcv; trivial
+        · split at hcv
+          · cases hcv; trivial
+          · exact denote_hasType _ _ _ hcv
+      · intro hreq hv
+        exact hnull ⟨r, hr, c, hc, hreq, by rw [hcv, hv]⟩
+  · intro hno
+    have : ¬ t.rows.length > 1 := fun hgt => hmany ⟨hno, hgt⟩
+    omega
+  · have hk := keys_nodup_iff s t.cols t.rows n hm
+    exact hk.mpr (Classical.not_not.mp hdup)
 
 /-- Every accepted Time_Period spelling denotes a period that exists in the calendar: month ≤ 12,
     week ≤ ISO weeks of that year, day ≤ days of that year — for every text. -/
@@ -316,6 +396,9 @@ theorem documented_spellings_accepted (p : Period) (h : C21.WF p) (s : List Char
   cases p with
   | mk y i n => cases i <;> simp [renderVal, render, yearChars, pad]
 
+/-- The magnitude bound of a Number is the configured DECIMAL(width, scale): width − scale integer digits. -/
+theorem number_range_is_configured : numberIntDigits = Gen.decimalWidth - Gen.decimalScale := by decide
+
 /-- Every quoted input example of docs/data_types.rst (all eight types) is accepted. -/
 theorem doc_examples_accepted : Gen.docExamples.all (fun e => accepts e.1 e.2) = true := by decide
 
@@ -333,6 +416,23 @@ theorem doc_period_examples_denote :
 /-- … except the examples the table itself misspells (neither InputSpec nor any loader accepts them). -/
 theorem doc_period_examples_typo_counter :
     (Gen.docPeriodExamples.filter (fun e => isDashTypo e.2)).all (fun e => !accepts .period e.2) = true := by
+  decide
+
+/-- The SQL loader's pattern checks (regex constants transcribed from io/_validation.py) let through texts
+    that are not valid representations under the documented formats: no calendar check (month 13, week 53 of
+    a 52-week year, day 366 of a common year, 30 February), no interval order check, letter case folded,
+    one-digit month / day.  Each witness is replayed on the real loaders by the check. -/
+theorem implAccept_counter :
+    (implAccept .period ['2','0','2','0','M','1','3'] = some true ∧ accepts .period ['2','0','2','0','M','1','3'] = false) ∧
+    (implAccept .period ['2','0','2','0','-','1','3'] = some true ∧ accepts .period ['2','0','2','0','-','1','3'] = false) ∧
+    (implAccept .period ['2','0','2','1','-','W','5','3'] = some true ∧ accepts .period ['2','0','2','1','-','W','5','3'] = false) ∧
+    (implAccept .period ['2','0','2','1','D','3','6','6'] = some true ∧ accepts .period ['2','0','2','1','D','3','6','6'] = false) ∧
+    (implAccept .interval ['2','0','2','0','-','1','2','-','3','1','/','2','0','2','0','-','0','1','-','0','1'] = some true ∧
+      accepts .interval ['2','0','2','0','-','1','2','-','3','1','/','2','0','2','0','-','0','1','-','0','1'] = false) ∧
+    (implAccept .interval ['2','0','2','0','-','0','2','-','3','0','/','2','0','2','0','-','0','3','-','0','1'] = some true ∧
+      accepts .interval ['2','0','2','0','-','0','2','-','3','0','/','2','0','2','0','-','0','3','-','0','1'] = false) ∧
+    (implAccept .duration ['a'] = some true ∧ accepts .duration ['a'] = false) ∧
+    (implAccept .date ['2','0','2','0','-','1','-','5'] = some true ∧ accepts .date ['2','0','2','0','-','1','-','5'] = false) := by
   decide
 
 end VtlModel.C19
